@@ -380,6 +380,10 @@ class Interp:
             x = self.get(values, ins[0])
             b, e, st = (self.get(values, ins[k]).flatten() for k in (1, 2, 3))
             return [x[tuple(slice(int(bb), int(ee), int(ss)) for bb, ee, ss in zip(b, e, st))]]
+        if code == "ARG_MAX":
+            x = self.get(values, ins[0])
+            axis = int(self.get(values, ins[1]).flatten()[0]) % x.ndim
+            return [np.argmax(x, axis=axis).astype(I64).reshape(ot["shape"])]  # first index of the maximum, as the reference kernel
         if code == "TILE":
             return [np.tile(self.get(values, ins[0]), [int(v) for v in self.get(values, ins[1]).flatten()])]
         if code == "GATHER":
